@@ -153,10 +153,18 @@ def run_ledger(C, P, rule, entry_ids, label):
     canon_tab = defaultdict(list)
     for (fn, kind, desc), ent in tab.items():
         canon_tab[(fn, kind, PN.canon_desc(desc))].append((desc, ent))
+    import re as _re2
     for key in list(groups):
         if key in tab:
             continue
         fn, kind, desc = key
+        # a site inside a closure of F (code moved into an iterator adaptor) is matched with the entries of F itself
+        base_fn = _re2.sub(r'(::\{[^{}]*\})+$', '', fn)
+        if base_fn != fn:
+            alt = [(d, e) for d, e in canon_tab.get((base_fn, kind, PN.canon_desc(desc)), []) if (base_fn, kind, d) not in groups]
+            if len(alt) == 1:
+                tab[key] = alt[0][1]
+                continue
         cands = [(d, e) for d, e in canon_tab.get((fn, kind, PN.canon_desc(desc)), []) if (fn, kind, d) not in groups]
         others = [k for k in groups if k != key and k not in tab and k[0] == fn and k[1] == kind and PN.canon_desc(k[2]) == PN.canon_desc(desc)]
         if len(cands) == 1 and not others:
@@ -165,7 +173,10 @@ def run_ledger(C, P, rule, entry_ids, label):
         ent = tab.get(key)
         for rank, s in enumerate(sorted(ss, key=lambda x: x.ordinal)):
             if ent and rank < ent[0]:
-                lost = [r for r in ent[3] if not requirement_holds(P, s.b, r, s)]
+                gb = s.b
+                if gb.kind == 'Closure' and getattr(gb, 'enclosing', None) in P.bodies:
+                    gb = P.bodies[gb.enclosing]
+                lost = [r for r in ent[3] if not requirement_holds(P, gb, r, s)]
                 if lost:
                     C.fail(rule, s.key() + '|guard-lost', 'the reviewed discharge of this site relies on a guard that is no longer present in %s (%s): %s' % (s.b.short, ', '.join(lost), ent[1]), s.where())
                 elif ent[2] and rule.startswith('C02'):
